@@ -236,6 +236,17 @@ FIXED = [
     'def e { if a == 1 { return "x" weighted 1 } else else if a == 2 { return "y" weighted 1 } }',
     'def e { if a not not in ( 1 , 2 ) { return "x" weighted 1 } }',
     'def e { if a in not ( 1 , 2 ) { return "x" weighted 1 } }',
+    # a first line in some other language's header / comment syntax (an interpreter line, a directive, a doc string)
+    '#!/usr/bin/env pyab\ndef e { return "x" weighted 1 }', '#! def other { return "y" weighted 1 }\ndef e { return "x" weighted 1 }', '#!\ndef e { return "x" weighted 1 }',
+    '# experiment\ndef e { return "x" weighted 1 }', '%YAML 1.2\ndef e { return "x" weighted 1 }', '<?xml version="1.0"?>\ndef e { return "x" weighted 1 }',
+    '-- header\ndef e { return "x" weighted 1 }', ';; header\ndef e { return "x" weighted 1 }', '"""doc"""\ndef e { return "x" weighted 1 }', "'''\ndoc\n'''\ndef e { return 'x' weighted 1 }",
+    '---\ndef e { return "x" weighted 1 }', 'def e { return "x" weighted 1 }\n__END__\njunk', 'def e { return "x" weighted 1 }\n#!eof',
+    # a string literal ends on the line it starts on
+    'def e { return "A\nB" weighted 1 }', "def e { salt: 'a\nb' return 1 weighted 1 }", 'def e { if a in ( "x\n" , "y" ) { return 1 weighted 1 } }', 'def e { return "A\r\nB" weighted 1 , "C" weighted 1 }',
+    'def e { return "A weighted 1 ,\n "B" weighted 1 }',
+    # a bare word / number sign where a quoted or numeric group is expected
+    'def e { return control weighted 1 }', 'def e { return "a" weighted 1 , treatment weighted 1 }', 'def e { return + 1 weighted 1 }', 'def e { if a == + 1 { return 1 weighted 1 } }',
+    'def e { return - - 5 weighted 1 }', 'def e { if a > - - 5.0 { return 1 weighted 1 } }', 'def e { if a == ---1 { return 1 weighted 1 } }',
 ]
 
 
